@@ -43,25 +43,71 @@ func (o OptSet) Apply(cc *eval.Config) {
 	}
 }
 
-// Directive renders the option subset as a leading ";;;;" comment line.
+// Directive renders the option subset as leading ";;;;" comment lines. Directives apply in source order
+// (a later entry overrides an earlier one; "optimize" switches all four). Besides the plain forms the text may
+// contain junk entries that are overridden later, the switch-all in the middle of a line, and entries relying on
+// a later switch-all overriding an earlier specific option.
 func (o OptSet) Directive(r interface{ Intn(int) int }) string {
-	var parts []string
-	for i, n := range optNames {
-		parts = append(parts, fmt.Sprintf("%s:%v", n, o&(1<<uint(i)) != 0))
+	name := func(i int) string { return string(optNames[i]) }
+	var entries []string
+	switch r.Intn(5) {
+	case 0:
+		// plain: the four options explicitly, in order
+		for i := range optNames {
+			entries = append(entries, fmt.Sprintf("%s:%v", name(i), o&(1<<uint(i)) != 0))
+		}
+	case 1:
+		if o == OptAll || o == OptNone {
+			entries = []string{fmt.Sprintf("optimize:%v", o == OptAll)}
+			break
+		}
+		fallthrough
+	default:
+		// junk specifics, then a switch-all, then the options that differ from it (in random order)
+		for k := r.Intn(4); k > 0; k-- {
+			entries = append(entries, fmt.Sprintf("%s:%v", name(r.Intn(4)), r.Intn(2) == 0))
+		}
+		b := r.Intn(2) == 0
+		entries = append(entries, fmt.Sprintf("optimize:%v", b))
+		perm := []int{0, 1, 2, 3}
+		for i := 3; i > 0; i-- {
+			k := r.Intn(i + 1)
+			perm[i], perm[k] = perm[k], perm[i]
+		}
+		for _, i := range perm {
+			want := o&(1<<uint(i)) != 0
+			if want != b {
+				if r.Intn(3) == 0 {
+					// set it wrongly first, the later entry wins
+					entries = append(entries, fmt.Sprintf("%s:%v", name(i), !want))
+				}
+				entries = append(entries, fmt.Sprintf("%s:%v", name(i), want))
+			} else if r.Intn(4) == 0 {
+				entries = append(entries, fmt.Sprintf("%s:%v", name(i), want))
+			}
+		}
 	}
-	switch {
-	case o == OptAll && r.Intn(2) == 0:
-		return ";;;; optimize:true\n"
-	case o == OptNone && r.Intn(2) == 0:
-		return ";;;; optimize:false\n"
-	case r.Intn(3) == 0:
-		// several directive lines
-		return ";;;; " + parts[0] + "," + parts[1] + "\n;;;;" + parts[2] + " , " + parts[3] + "\n"
-	case r.Intn(3) == 0:
-		// start from a switch-all and override
-		return ";;;; optimize:false\n;;;; " + strings.Join(parts, ",") + "\n"
+	// split the entries over lines
+	var sb strings.Builder
+	sb.WriteString(";;;; ")
+	for i, e := range entries {
+		if i > 0 {
+			switch r.Intn(3) {
+			case 0:
+				sb.WriteString("\n;;;;")
+				if r.Intn(2) == 0 {
+					sb.WriteString(" ")
+				}
+			case 1:
+				sb.WriteString(" , ")
+			default:
+				sb.WriteString(",")
+			}
+		}
+		sb.WriteString(e)
 	}
-	return ";;;; " + strings.Join(parts, ", ") + "\n"
+	sb.WriteString("\n")
+	return sb.String()
 }
 
 // CaseCfg is everything that goes into a Config for one compilation.
